@@ -1,0 +1,10 @@
+//go:build verif
+
+package api
+
+import "github.com/valyala/fasthttp"
+
+// VerifHandler returns the handler chain that NewServer configured (verification
+// builds only), so that a harness can drive the real routing and middleware
+// in-process without opening a socket.
+func (s *Server) VerifHandler() fasthttp.RequestHandler { return s.srv.Handler }
